@@ -178,6 +178,25 @@ def api(V, accel, n):
     return cl
 
 
+def sequence(V, first, second):
+    """two payloads created one after the other in the same process (a driver library or the external API serving several accelerators):
+    the second payload's header describes the SECOND accelerator, whatever was built before"""
+    import ethosu.vela.driver_actions as da
+    from ethosu.vela.api import NpuAccelerator, npu_create_driver_payload
+
+    cl = []
+    for idx, accel in enumerate((first, second)):
+        ws = [V.int("w%d_%d" % (idx, i), 0, 2**32 - 1) for i in range(2)]
+        with core.shims((da, {"struct": _SStruct, "int": core.sint})):
+            res = npu_create_driver_payload(list(ws), NpuAccelerator[accel])
+        w = _words(res)
+        c, first_word = _header_claims(w, accel, 2, len(w))
+        cl += [("payload %d (%s): %s" % (idx + 1, accel, n), e) for n, e in c]
+        if first_word is not None:
+            cl += [("payload %d: command word %d unmodified" % (idx + 1, i), L(w[first_word + i]) == L(ws[i])) for i in range(2)]
+    return cl
+
+
 class _Bulk:
     """stand-in for the commands emitted for earlier operations: W words (symbolic), nothing to iterate"""
 
@@ -228,7 +247,7 @@ def stream_limit(V, accel, kind):
             ("the operation's own commands are a handful of words", emitted < 200)]
 
 
-FUNCS = {"header": header, "content": content, "api": api, "stream_limit": stream_limit}
+FUNCS = {"header": header, "content": content, "api": api, "stream_limit": stream_limit, "sequence": sequence}
 
 
 def instances(tier, seed):
@@ -238,6 +257,10 @@ def instances(tier, seed):
         for n in range(0, 5):
             out.append(dict(key="content/%s/%d" % (a, n), fn="content", params=dict(accel=a, n=n)))
         out.append(dict(key="api/%s" % a, fn="api", params=dict(accel=a, n=2)))
+    for a in ACCELS:
+        for b in ACCELS:
+            if a != b:
+                out.append(dict(key="sequence/%s_then_%s" % (a, b), fn="sequence", params=dict(first=a, second=b)))
     for a in ("Ethos_U55_128", "Ethos_U65_512"):
         for kind in ("conv", "dma"):
             out.append(dict(key="stream_limit/%s/%s" % (a, kind), fn="stream_limit", params=dict(accel=a, kind=kind)))
